@@ -57,11 +57,10 @@ Theorem C18_list_history_strs : forall ops rops l, Forall2 (op_rel string VStr) 
       map (emb_obs string VStr) (snd (l_run string String.eqb ops l))).
 Proof. exact list_history_strs. Qed.
 
-(* set with a negative index is outside the history theorem (op_rel requires 0 <= i): the model has no
-   state for what Lua does then (found by the oracle: the list grows a key <= 0 that len/fold/... visit) *)
-Theorem C18_list_set_negative : forall (A : Type) (emb : A -> value) l i x, (i < 0)%Z ->
-  rt_list_set (rep_list A emb l) i x = Unsup.
-Proof. exact list_set_negative. Qed.
+(* an out-of-range write, negative indices included, is ignored (the guard i >= 0 exists since /repo 7ba9047) *)
+Theorem C18_list_set : forall (A : Type) (emb : A -> value) l i x,
+  rt_list_set (rep_list A emb l) i (emb x) = Ok (rep_list A emb (l_set l i x)).
+Proof. exact list_set_refines. Qed.
 
 (* ---- dicts and sets: every history, under key injectivity ---- *)
 
@@ -69,7 +68,6 @@ Theorem C18_dict_history : forall (K V : Type) (embK : K -> value) (embV : V -> 
   (forall k k', keqb k k' = true <-> k = k') ->
   (forall k k', rt_tostring (embK k) = rt_tostring (embK k') -> k = k') ->
   forall ops m,
-  (forall k, exists s, embK k = VStr s) \/ existsb (is_remove K V) ops = false ->
   rt_drun K V embK embV ops (rep_dict K V embK embV m) =
   Ok (rep_dict K V embK embV (fst (d_run K V keqb ops m)), map (emb_dobs V embV) (snd (d_run K V keqb ops m))).
 Proof. exact dict_history_refines. Qed.
@@ -102,7 +100,8 @@ Proof. exact key_inj_str. Qed.
 Theorem C18_key_inj_int : forall z z', rt_tostring (vint z) = rt_tostring (vint z') -> z = z'.
 Proof. exact key_inj_int. Qed.
 
-(* hence: every history on string-keyed dicts and sets, and on int-keyed sets and (without remove) dicts *)
+(* hence: every history on dicts and sets keyed by strings or by ints (remove included: dict_remove uses
+   tostring(k) since /repo 6c29222) *)
 Theorem C18_dict_history_str_keys : forall (V : Type) (embV : V -> value) ops m,
   rt_drun string V VStr embV ops (rep_dict string V VStr embV m) =
   Ok (rep_dict string V VStr embV (fst (d_run string V String.eqb ops m)),
@@ -110,7 +109,6 @@ Theorem C18_dict_history_str_keys : forall (V : Type) (embV : V -> value) ops m,
 Proof. exact dict_history_str_keys. Qed.
 
 Theorem C18_dict_history_int_keys : forall (V : Type) (embV : V -> value) ops m,
-  existsb (is_remove Z V) ops = false ->
   rt_drun Z V vint embV ops (rep_dict Z V vint embV m) =
   Ok (rep_dict Z V vint embV (fst (d_run Z V Z.eqb ops m)),
       map (emb_dobs V embV) (snd (d_run Z V Z.eqb ops m))).
@@ -145,39 +143,26 @@ Proof. exact dict_tuple_key_collision. Qed.
 (* left open (exercised by the correspondence and the oracle only) *)
 Definition C18_key_inj_int_tuple_statement : Prop := key_inj_int_tuple_statement.
 
-(* dict_remove uses the raw key: a no-op unless the key is a string *)
-Theorem C18_dict_remove_nonstr_noop : forall (K V : Type) (embK : K -> value) (embV : V -> value) m k,
-  (forall s, embK k <> VStr s) ->
-  rt_dict_remove (rep_dict K V embK embV m) (embK k) = Ok (rep_dict K V embK embV m).
-Proof. exact dict_remove_nonstr_noop. Qed.
-
-Theorem C18_dict_remove_int_refuted : exists d k v d' d'',
-  rt_dict_update rt_dict_new k v = Ok d /\ rt_dict_remove d k = Ok d' /\ rt_len d' = Ok (vint 1) /\
-  rt_dict_get d' k = Ok (mk_just v) /\
-  m_remove Z.eqb 1%Z (m_insert Z.eqb 1%Z 7%Z []) = [] /\ d'' = d'.
-Proof. exact dict_remove_int_refuted. Qed.
-
 (* ---- library-made values vs source-written values ---- *)
 
-Definition C18_lib_maybe_eq_statement : Prop :=
-  forall (l : list value) (i : Z) (r : value), rt_list_get (VList l) i = Ok r ->
-  rt_eq r (match l_get l i with Some x => mk_just x | None => src_none end) = true.
+(* a Maybe made by the library (list.get here; find / pop / last / dict.get answer with the same rep_maybe)
+   has the Maybe type and is == to the same Maybe written in the program; in particular the absent
+   element IS `Maybe.None` (since /repo c4844e5; before, this statement was refuted) *)
+Theorem C18_lib_maybe_eq : forall t (l : list value) (i : Z) (r : value), Forall (vty t) l ->
+  rt_list_get (VList l) i = Ok r ->
+  vty (TMaybe t) r /\ rt_eq r (match l_get l i with Some x => mk_just x | None => src_none end) = true.
+Proof. exact lib_maybe_eq. Qed.
 
-Theorem C18_lib_none_eq_refuted :
+Theorem C18_lib_none_is_src_none : lib_none = src_none.
+Proof. exact lib_none_is_src_none. Qed.
+
+Theorem C18_lib_none_eq :
   rt_list_get (VList []) 0 = Ok lib_none /\ rt_list_pop (VList []) = Ok (VList [], lib_none) /\
   rt_list_find (fun _ => true) (VList []) = Ok lib_none /\ rt_dict_get rt_dict_new (vint 0) = Ok lib_none /\
-  rt_eq lib_none src_none = false /\ rt_eq src_none lib_none = false /\ rt_neq lib_none src_none = true /\
-  vty (TMaybe TInt) src_none /\ ~ vty (TMaybe TInt) lib_none.
-Proof. exact lib_none_eq_refuted. Qed.
+  rt_eq lib_none src_none = true /\ rt_neq lib_none src_none = false /\ vty (TMaybe TInt) lib_none.
+Proof. exact lib_none_eq. Qed.
 
-Theorem C18_lib_maybe_eq_false : ~ C18_lib_maybe_eq_statement.
-Proof. exact lib_maybe_eq_false. Qed.
-
-Theorem C18_lib_just_eq : forall t (l : list value) i x, Forall (vty t) l -> l_get l i = Some x ->
-  rt_list_get (VList l) i = Ok (mk_just x) /\ rt_eq (mk_just x) (mk_just x) = true /\ vty (TMaybe t) (mk_just x).
-Proof. exact lib_just_eq. Qed.
-
-(* without ==, the two Nones are interchangeable *)
+(* case analysis and printing agree as well *)
 Theorem C18_lib_none_case_ok :
   rt_is_just lib_none = rt_is_just src_none /\ rt_is_none lib_none = rt_is_none src_none /\
   (forall d, rt_or_default lib_none d = rt_or_default src_none d) /\
@@ -224,7 +209,7 @@ Proof. exact sign_num. Qed.
 Example C18_example :
   rt_lrun [RPush (vint 3); RPrepend (vint 1); RGet 5; RPop; RLen; RContains (vint 1)] (VList [vint 2])
   = Ok (VList [vint 1; vint 2],
-        [VLuaNil; VLuaNil; lib_none; mk_just (vint 3); vint 2; VBool true]).
+        [VLuaNil; VLuaNil; src_none; mk_just (vint 3); vint 2; VBool true]).
 Proof. vm_compute. reflexivity. Qed.
 
 Print Assumptions C18_preamble_doc.
@@ -235,7 +220,7 @@ Print Assumptions C18_list_history.
 Print Assumptions C18_list_history_values.
 Print Assumptions C18_list_history_ints.
 Print Assumptions C18_list_history_strs.
-Print Assumptions C18_list_set_negative.
+Print Assumptions C18_list_set.
 Print Assumptions C18_dict_history.
 Print Assumptions C18_dict_from_list.
 Print Assumptions C18_set_history.
@@ -249,11 +234,9 @@ Print Assumptions C18_set_history_int_keys.
 Print Assumptions C18_key_inj_float_refuted.
 Print Assumptions C18_key_inj_tuple_str_refuted.
 Print Assumptions C18_dict_tuple_key_collision.
-Print Assumptions C18_dict_remove_nonstr_noop.
-Print Assumptions C18_dict_remove_int_refuted.
-Print Assumptions C18_lib_none_eq_refuted.
-Print Assumptions C18_lib_maybe_eq_false.
-Print Assumptions C18_lib_just_eq.
+Print Assumptions C18_lib_maybe_eq.
+Print Assumptions C18_lib_none_is_src_none.
+Print Assumptions C18_lib_none_eq.
 Print Assumptions C18_lib_none_case_ok.
 Print Assumptions C18_maybe_helpers.
 Print Assumptions C18_min_int.
